@@ -42,6 +42,9 @@ type c05Scenario struct {
 	Retry    []bool    `json:"retry"`     // per crash point: follow up an in-flight ADD with a retry (else DEL)
 	Vanish   int       `json:"vanish"`    // >0: one interface (selector) is detached behind the daemon's back before restart
 	FillMore int       `json:"fill_more"` // extra fresh pods to try beyond capacity
+	// ShrinkCap > 0: the daemon is restarted with a smaller per-interface address limit
+	// (cap - ShrinkCap, at least 1), e.g. after an instance-type change
+	ShrinkCap int `json:"shrink_cap,omitempty"`
 }
 
 func c05Gen(t *rapid.T) c05Scenario {
@@ -61,6 +64,9 @@ func c05Gen(t *rapid.T) c05Scenario {
 	}
 	if rapid.IntRange(0, 5).Draw(t, "vanish") == 0 {
 		s.Vanish = rapid.IntRange(1, 4).Draw(t, "vanishsel")
+	}
+	if rapid.IntRange(0, 4).Draw(t, "shrink") == 0 {
+		s.ShrinkCap = rapid.IntRange(1, 3).Draw(t, "shrinkcap")
 	}
 	return s
 }
@@ -233,6 +239,9 @@ func c05Run(c *vt.Ctx, s c05Scenario) {
 		c.Label("vanished-interface")
 		c.NonTrivial()
 	}
+	if s.ShrinkCap > 0 {
+		c.NonTrivial()
+	}
 }
 
 // c05Restart builds a restarted daemon from a crash snapshot and checks it.
@@ -259,7 +268,15 @@ func c05Restart(c *vt.Ctx, s c05Scenario, idx int, sn c05Snap, retry bool) {
 		}
 	}
 	k := vsNewK8s()
-	w, err := vsStart(s.Cfg, cloud, k, dir, dbPath)
+	cfg := s.Cfg
+	if s.ShrinkCap > 0 {
+		cfg.Cap = s.Cfg.Cap - s.ShrinkCap
+		if cfg.Cap < 1 {
+			cfg.Cap = 1
+		}
+	}
+	shrunk := cfg.Cap < s.Cfg.Cap
+	w, err := vsStart(cfg, cloud, k, dir, dbPath)
 	if err != nil {
 		_ = os.RemoveAll(dir)
 		c.Fatalf("%s: restart failed: %v", tag, err)
@@ -435,6 +452,13 @@ func c05Restart(c *vt.Ctx, s c05Scenario, idx int, sn c05Snap, retry bool) {
 			acked[v6] = name
 		}
 		got++
+	}
+	if shrunk {
+		// with a smaller limit interfaces may carry more addresses than they may now hold;
+		// how many fresh pods fit depends on which idle addresses the start-up trim removed.
+		// The no-double-allocation clause above is what is asserted in this variant.
+		c.Label("restart-with-smaller-limit")
+		return
 	}
 	if got != capacity-held {
 		c.Fatalf("%s: after restart %d fresh pods fit, expected capacity %d - %d acknowledged = %d (addresses stranded or over-committed)", tag, got, capacity, held, capacity-held)
